@@ -7,7 +7,7 @@ allp = [json.loads(l) for l in open(os.path.join(V, "properties.jsonl"))]
 checks = []
 for p in allp:
     pid = p["id"]
-    if pid not in P.PROPS: continue
+    if pid not in P.PROPS or not P.PROPS[pid].get('claim', True): continue
     s = P.PROPS[pid]
     checks.append({
         "property_id": pid,
@@ -20,13 +20,13 @@ for p in allp:
         "level_note": s["level_note"],
         "technique": s.get("technique", "Lean 4 theorems (inductive invariants) over an executable model; model tied to the code by lockstep replay of real executions / differential runs"),
     })
-na = [{"property_id": p["id"], "reason": P.NOT_YET.get(p["id"], "check not built yet (work in progress)")} for p in allp if p["id"] not in P.PROPS]
+na = [{"property_id": p["id"], "reason": P.NOT_YET.get(p["id"], "check not built yet (work in progress)")} for p in allp if p["id"] not in P.PROPS or not P.PROPS[p["id"]].get('claim', True)]
 m = {"version": 1, "setup_cmd": "./check setup",
      "hooks": {"guard": "NSYNC_VERIF", "enable": "none needed: the unmodified sources are compiled against /verif/harness/platform (include-path substitution of atomic.h/platform.h) with clang -fsanitize=thread callbacks provided by the harness; no guarded code exists in /repo",
                "baseline_off_cmd": "cmake --build /repo/_build && ctest --test-dir /repo/_build -j8 --timeout 900", "source_commits": [], "add_only": True},
-     "engines": [{"name": "lean-model", "path": "/verif/lean", "serves_properties": sorted(P.PROPS), "kind_free_text": "Lean 4 model + theorems + replay driver (lean_exe)"},
-                 {"name": "lockstep-harness", "path": "/verif/harness", "serves_properties": sorted(k for k in P.PROPS if P.PROPS[k].get("engine", "lockstep-harness") == "lockstep-harness"), "kind_free_text": "deterministic fiber scheduler running the real nsync sources; event log replayed through the Lean acceptors; implementation-side oracles"},
-                 {"name": "pure-differential", "path": "/verif/harness/pure", "serves_properties": sorted(k for k in P.PROPS if P.PROPS[k].get("engine") == "pure-differential"), "kind_free_text": "real C/C++ objects vs Lean model on the same inputs"}],
+     "engines": [{"name": "lean-model", "path": "/verif/lean", "serves_properties": sorted(k for k in P.PROPS if P.PROPS[k].get("claim", True)), "kind_free_text": "Lean 4 model + theorems + replay driver (lean_exe)"},
+                 {"name": "lockstep-harness", "path": "/verif/harness", "serves_properties": sorted(k for k in P.PROPS if P.PROPS[k].get('claim', True) and P.PROPS[k].get("engine", "lockstep-harness") == "lockstep-harness"), "kind_free_text": "deterministic fiber scheduler running the real nsync sources; event log replayed through the Lean acceptors; implementation-side oracles"},
+                 {"name": "pure-differential", "path": "/verif/harness/pure", "serves_properties": sorted(k for k in P.PROPS if P.PROPS[k].get('claim', True) and P.PROPS[k].get("engine") == "pure-differential"), "kind_free_text": "real C/C++ objects vs Lean model on the same inputs"}],
      "checks": checks, "notes": "see DESIGN.md; fixes to /repo are 'fix:' commits listed in known_findings.json", "not_applicable": na}
 json.dump(m, open(os.path.join(V, "MANIFEST.json"), "w"), indent=1)
 print("claimed:", [c["property_id"] for c in checks])
